@@ -12,7 +12,10 @@ AllPCs == {<<"any","exact">>, <<"any","min">>, <<"second","exact">>, <<"second",
            <<"millisecond","exact">>, <<"millisecond","min">>}
 MkInputs(ds, ts, us, os) == { [y |-> dd[1], mo |-> dd[2], d |-> dd[3], h |-> tt[1], mi |-> tt[2], s |-> tt[3], us |-> u, off |-> o] :
                               dd \in ds, tt \in ts, u \in us, o \in os }
-QuickInputs == MkInputs(Dates, Times, US, {0, 840, 0 - 840}) \cup MkInputs({<<2017,1,1>>, <<1,1,1>>, <<9999,12,31>>}, {<<0,0,0>>, <<23,59,59>>}, {0, 999999, 123000}, Offs)
+\* offsets with a seconds part (local mean times): +00:19:32, -00:00:30, +14:00:59
+WithOffs == { [y |-> 2017, mo |-> 1, d |-> 1, h |-> tt[1], mi |-> tt[2], s |-> tt[3], us |-> u, off |-> o[1], offs |-> o[2]] :
+              tt \in {<<0,0,0>>, <<23,59,59>>, <<0,19,31>>}, u \in {0, 999999, 123456}, o \in {<<19, 32>>, <<0, 0 - 30>>, <<840, 59>>, <<0 - 1, 0 - 59>>} }
+QuickInputs == WithOffs \cup MkInputs(Dates, Times, US, {0, 840, 0 - 840}) \cup MkInputs({<<2017,1,1>>, <<1,1,1>>, <<9999,12,31>>}, {<<0,0,0>>, <<23,59,59>>}, {0, 999999, 123000}, Offs)
 SmallInputs == MkInputs({<<999,12,31>>, <<2017,1,1>>, <<2016,12,31>>}, {<<0,0,0>>, <<23,59,59>>}, {0, 999, 1000, 123456, 999999}, {0, 1, MinusOne})
 ASSUME Monotone(SmallInputs, AllPCs)
 \* S2: table of expectations for the replayer
